@@ -240,6 +240,7 @@ type c17Stmt struct {
 	Chs  []int     `json:"chs,omitempty"`  // sel: the channels of the select, in clause order
 	Tpos []int     `json:"tpos,omitempty"` // sel: clause positions (0 = first) of time-channel clauses
 	Shrt bool      `json:"shrt,omitempty"` // sel: the time channels fire (1 ms): the select is retried
+	Tick bool      `json:"tick,omitempty"` // sel (with Shrt): the time clauses use one time-ticker shared by all routines
 	Val  string    `json:"val,omitempty"`  // push: kind of the pushed object: "" fixnum, str, list, sym, nil, t, elist
 	Body []c17Stmt `json:"b,omitempty"`
 }
@@ -569,7 +570,11 @@ func (p *c17Prog) render(b *strings.Builder, r int, ss []c17Stmt, held []int, lo
 					}
 				}
 				if isT || ci >= len(s.Chs) {
-					if s.Shrt {
+					if s.Shrt && s.Tick {
+						// the environment keeps sending on this channel (a tick goes to one of the
+						// routines selecting on it, or is dropped)
+						clauses = append(clauses, fmt.Sprintf("(*tk* tv (vtrace 'to %d))", r))
+					} else if s.Shrt {
 						clauses = append(clauses, fmt.Sprintf("((time-after 0.001) tv (vtrace 'to %d))", r))
 					} else {
 						clauses = append(clauses, fmt.Sprintf("(*to%d* tv (vtrace 'to %d))", ti%4, r))
@@ -661,11 +666,19 @@ func c17EndsFailed(ss []c17Stmt) bool {
 }
 
 func (p *c17Prog) usesLongTimers() bool {
+	return p.anyStmt(func(s c17Stmt) bool { return s.Kind == "sel" && len(s.Tpos) > 0 && !s.Shrt })
+}
+
+func (p *c17Prog) usesTicker() bool {
+	return p.anyStmt(func(s c17Stmt) bool { return s.Kind == "sel" && len(s.Tpos) > 0 && s.Shrt && s.Tick })
+}
+
+func (p *c17Prog) anyStmt(pred func(c17Stmt) bool) bool {
 	found := false
 	var walk func(ss []c17Stmt)
 	walk = func(ss []c17Stmt) {
 		for _, s := range ss {
-			if s.Kind == "sel" && len(s.Tpos) > 0 && !s.Shrt {
+			if pred(s) {
 				found = true
 			}
 			walk(s.Body)
@@ -694,6 +707,9 @@ func (p *c17Prog) source(sequential bool) string {
 	if p.usesLongTimers() {
 		// time channels that never fire during a run
 		b.WriteString("(defvar *to0* (time-after 3600))\n(defvar *to1* (time-after 7200))\n(defvar *to2* (time-after 5400))\n(defvar *to3* (time-after 9000))\n")
+	}
+	if p.usesTicker() {
+		b.WriteString("(defvar *tk* (time-ticker 0.001))\n")
 	}
 	var fs, cs, ls []string
 	hash := false
@@ -1188,7 +1204,7 @@ func c17Sel(rng *lib.Rng, chs []int, nt int, short bool) c17Stmt {
 		j := rng.Intn(i + 1)
 		perm[i], perm[j] = perm[j], perm[i]
 	}
-	s := c17Stmt{Kind: "sel", Chs: perm, Shrt: short}
+	s := c17Stmt{Kind: "sel", Chs: perm, Shrt: short, Tick: short && rng.Bool()}
 	total := len(perm) + nt
 	used := map[int]bool{}
 	for len(s.Tpos) < nt {
@@ -1963,7 +1979,26 @@ func c17CheckRun(c *lib.Ctx, cs *c17Case, run *c17Run, model map[string]string, 
 			add(fmt.Sprintf("final=channel-length cap=%d", p.Caps[ch]), fmt.Sprintf("(length ch%d) = %d after all routines finished", ch, lens[ch]), "0 (pushes = pops)")
 		}
 	}
-	if model != nil && !p.Shared && !p.Defun {
+	// channels that are closed and drained by range consumers: the run of Model/Close.lean
+	// (`conc close`, Close.step under a seeded schedule) says how many items are received in all
+	// and that nothing is left; Theorems/C17Close.lean proves this for every schedule
+	for ch := 0; ch < nch; ch++ {
+		want, has := model[fmt.Sprintf("close%d.received", ch)]
+		if !has {
+			continue
+		}
+		n := 0
+		for _, l := range recv[ch] {
+			n += len(l)
+		}
+		if strconv.Itoa(n) != want {
+			add(fmt.Sprintf("model=close-received cap=%d", p.Caps[ch]), fmt.Sprintf("%d items received on ch%d by its range consumers", n, ch), "model run (close + range): "+want)
+		}
+		if l := model[fmt.Sprintf("close%d.left", ch)]; l != strconv.FormatInt(lens[ch], 10) {
+			add(fmt.Sprintf("model=close-left cap=%d", p.Caps[ch]), fmt.Sprintf("(length ch%d) = %d", ch, lens[ch]), "model run (close + range): "+l)
+		}
+	}
+	if model != nil && model["q"] != "" && !p.Shared && !p.Defun {
 		if model["finals"] != "" && model["finals"] != "-" {
 			want := strings.Split(model["finals"], ",")
 			for k, w := range want {
@@ -2214,7 +2249,7 @@ func c17Cells() []*c17Case {
 	}
 	// select: every position of the time-channel clauses relative to the channel clauses
 	// (three time channels or nine channels take select's general path)
-	for _, pat := range []string{"cc", "tcc", "ctc", "cct", "tctc", "tc", "ct", "ttc", "Tcc", "cTc", "ccT", "tctct", "tttc", "ccccccccc", "tccccccccc"} {
+	for _, pat := range []string{"cc", "tcc", "ctc", "cct", "tctc", "tc", "ct", "ttc", "Tcc", "cTc", "ccT", "tctct", "tttc", "ccccccccc", "tccccccccc", "Kcc", "cKc", "cK"} {
 		p := &c17Prog{Family: "chan", Shape: "select", Caps: []int{2, 0}}
 		sel := c17Stmt{Kind: "sel"}
 		ch := 0
@@ -2228,6 +2263,9 @@ func c17Cells() []*c17Case {
 			case 'T':
 				sel.Tpos = append(sel.Tpos, i)
 				sel.Shrt = true
+			case 'K':
+				sel.Tpos = append(sel.Tpos, i)
+				sel.Shrt, sel.Tick = true, true
 			}
 		}
 		if ch == 1 {
@@ -2532,6 +2570,65 @@ func c17Replay(c *lib.Ctx, self string) {
 	fmt.Println("  12 attempts passed all checks")
 }
 
+// closeModel runs Model/Close.lean for every channel of the program that is closed by a producer
+// and drained by range consumers (shapes range-close, range-pool, odd-range).
+func (p *c17Prog) closeModel(c *lib.Ctx, seed uint64) map[string]string {
+	type info struct {
+		closed    bool
+		pushes    map[int]int
+		consumers int
+	}
+	chans := map[int]*info{}
+	get := func(ch int) *info {
+		if chans[ch] == nil {
+			chans[ch] = &info{pushes: map[int]int{}}
+		}
+		return chans[ch]
+	}
+	for t, ss := range p.threads() {
+		c17Walk(c17Expand(ss), func(s c17Stmt) {
+			switch s.Kind {
+			case "push":
+				get(s.Ch).pushes[t]++
+			case "close":
+				get(s.Ch).closed = true
+			case "rangeall":
+				get(s.Ch).consumers++
+			}
+		})
+	}
+	var reqs []string
+	var chs []int
+	for ch := range p.Caps {
+		in := chans[ch]
+		if in == nil || !in.closed || in.consumers == 0 {
+			continue
+		}
+		var prods []int
+		for t := range in.pushes {
+			prods = append(prods, t)
+		}
+		sort.Ints(prods)
+		counts := make([]int, len(prods))
+		for i, t := range prods {
+			counts[i] = in.pushes[t]
+		}
+		reqs = append(reqs, fmt.Sprintf("conc close %d %d %d 4000000 %s", p.Caps[ch], in.consumers, seed%1000000007, c17Join(counts)))
+		chs = append(chs, ch)
+	}
+	out := map[string]string{}
+	for i, rep := range c.Model(reqs) {
+		m := c17ParseModel(rep)
+		if !strings.HasPrefix(rep, "ok ") || m["ended"] != strconv.Itoa(chans[chs[i]].consumers) || m["exact"] != "1" || m["left"] != "0" {
+			fmt.Fprintf(os.Stderr, "c17: close/range model run did not drain (harness bug): %s -> %s\n", reqs[i], rep)
+			os.Exit(2)
+		}
+		out[fmt.Sprintf("close%d.received", chs[i])] = m["received"]
+		out[fmt.Sprintf("close%d.left", chs[i])] = m["left"]
+	}
+	return out
+}
+
 // c17RunCase runs one program once at the given GOMAXPROCS and returns the verdicts.
 func c17RunCase(c *lib.Ctx, cs *c17Case, bin string, procs int, yieldSeed uint64) []c17Verdict {
 	p := cs.Prog
@@ -2560,6 +2657,9 @@ func c17RunCase(c *lib.Ctx, cs *c17Case, bin string, procs int, yieldSeed uint64
 			fmt.Fprintf(os.Stderr, "c17: generated program rejected by the model (harness bug): %v\n%s\n", model, c17Clip(p.modelRequest(yieldSeed), 2000))
 			os.Exit(2)
 		}
+	}
+	if p.NoModel && !p.Shared && !p.Defun {
+		model = p.closeModel(c, yieldSeed)
 	}
 	deadline := 2 * time.Minute
 	if cs.Race || p.Burst {
